@@ -52,6 +52,19 @@ def movie_case(rng, kind="movie", nmax=30, big=False, force=None):
     mmap_at = rng.randrange(1, n)
     extra = [(rng.choice([b"free", b"junk", fourcc()]), rng.choice([0, -1]), 0, 12, 0, -1) for _ in range(rng.randrange(0, 3))]
     data, entries, offs, chunks = c01.build_movie(order, prefix, chunks, mmap_at, extra)
+    if force is None and not big and rng.random() < 0.3:
+        # memory-map slots that are field for field IDENTICAL to an earlier slot (two indices naming the same chunk): each index
+        # still gets its own file (seeded change C18-m11: entries compared by value + list.index gave the earlier index twice)
+        ndup = rng.choice([1, 1, 2])
+        ph = [(b"free", 0, 0, 12, 0, -1)] * ndup
+        chunks0 = [(c, (b"" if i in (0, mmap_at) else p)) for i, (c, p) in enumerate(chunks)]
+        _d, ent, _o, _c = c01.build_movie(order, prefix, chunks0, mmap_at, extra + ph)
+        real = [e for e in ent[1:len(ent) - len(extra) - ndup] if e[1] > 0]
+        if real:
+            dups = [rng.choice(real) for _ in range(ndup)]
+            extra = extra + dups
+            data, entries, offs, chunks = c01.build_movie(order, prefix, chunks0, mmap_at, extra)
+            kind = kind + "-dupslots"
     if force is not None:
         pos, b = force
         L0 = struct.unpack("<i", data[len(prefix) + 4:len(prefix) + 8])[0]
